@@ -1339,6 +1339,12 @@ fn choose_move(ctx: &mut Ctx, s: &Session, cfg: &Cfg, l1: &[Mv]) -> Mv {
                     }
                     MoveKind::EnPassant => cfg.w[1].wrapping_mul(4),
                     MoveKind::CastleK | MoveKind::CastleQ => cfg.w[2].wrapping_mul(4),
+                    // a promotion that captures on a corner square takes a rook off its home
+                    // square, rights and all (seeded change C05-R: that successor was only ever
+                    // looked at one ply ahead, never played and written down)
+                    MoveKind::PromoQ | MoveKind::PromoN | MoveKind::PromoB | MoveKind::PromoR if matches!(m.to, 0 | 7 | 56 | 63) && s.model.sq[m.to as usize] != m1::EMPTY => {
+                        cfg.w[3].wrapping_add(cfg.w[5].wrapping_mul(4)).wrapping_add(8)
+                    }
                     MoveKind::PromoQ => cfg.w[3],
                     MoveKind::PromoN | MoveKind::PromoB | MoveKind::PromoR => cfg.w[4],
                     MoveKind::Capture => {
@@ -1952,6 +1958,26 @@ fn one_ply(ctx: &mut Ctx, st: &mut LoopState, ply: u32) -> Step<Flow> {
                             // whatever C02 has to say about that board
                             ctx.stats.bump("c01.monitor-at-position-with-wrong-successor");
                             check_legals(ctx, &st.s)?;
+                        }
+                        if ctx.claim == Prop::C05 && ctx.mode == Prop::C05 {
+                            // the board the code produced was reached by legal play through the
+                            // public API: whatever C02 has to say about it, its own text must
+                            // still read back as itself (seeded change C05-R: a right kept
+                            // without its rook is written down and then refused by the parser)
+                            ctx.stats.bump("c05.roundtrip-at-wrong-successor");
+                            let b = st.s.board;
+                            let own = op(Op::Print, || b.to_string());
+                            let f = format!("reached=wrong-successor;component={comp}");
+                            match op(Op::Parse, || own.parse::<Board>()) {
+                                Ok(r) => {
+                                    compare_replica(ctx, &b, &r, "own-text", &f, &own)?;
+                                    let again = op(Op::Print, || r.to_string());
+                                    if again != own {
+                                        return fail_any(ctx, &[(Prop::C05, "fen.not-idempotent")], f, format!("{own:?} -> parse -> {again:?}"));
+                                    }
+                                }
+                                Err(e) => return fail_any(ctx, &[(Prop::C05, "fen.reparse-rejected")], f, format!("own text {own:?} of the board reached by {} rejected: {e:?}", m.text())),
+                            }
                         }
                         return fail_any(ctx, &[(Prop::C02, &format!("succ.{comp}"))], feat, format!("after {} : {d}; now {}", m.text(), st.s.model.fen()));
                     }
